@@ -81,6 +81,12 @@ Definition ray_brute vs (fs : list (nat * nat * nat)) (o d : Vec3 T) : option T 
     | Some t, None => Some t
     | None, _ => best end) fs None.
 
+(** number of faces a ray crosses: for a closed mesh its parity is the ground truth of "the origin is inside" *)
+Definition ray_hits vs (fs : list (nat * nat * nat)) (o d : Vec3 T) : nat :=
+  length (filter (fun f : nat * nat * nat => let '(i0, i1, i2) := f in
+                    match ray_tri o d (vert vs i0) (vert vs i1) (vert vs i2) with Some _ => true | None => false end) fs).
+Definition inside_parity vs fs (p d : Vec3 T) : bool := Nat.odd (ray_hits vs fs p d).
+
 (** OrientedBoundingBox: frame (R, origin), extent [0,size] along each axis of the frame *)
 Definition obox := (Transform T * Vec3 T)%type.
 Definition to_box_frame (bx : obox) (p : Vec3 T) : Vec3 T := let '((R, o), _) := bx in m33_Tmulv K R (vsub p o).
@@ -93,6 +99,10 @@ Definition clamp (lo hi x : T) : T := if x <? lo then lo else if hi <? x then hi
 Definition box_dist2 (bx : obox) (p : Vec3 T) : T :=
   let '(q0, q1, q2) := to_box_frame bx p in let '(s0, s1, s2) := snd bx in
   let e0 := clamp 0 s0 q0 - q0 in let e1 := clamp 0 s1 q1 - q1 in let e2 := clamp 0 s2 q2 - q2 in e0 * e0 + e1 * e1 + e2 * e2.
+
+(** bounding sphere (Geo::Sphere, TriangleMesh::getBoundingSphere): center c, radius r *)
+Definition sphere_contains (tol : T) (c : Vec3 T) (r : T) (p : Vec3 T) : bool :=
+  v3_normSqr K (vsub p c) <=? (r + tol) * (r + tol).
 
 (** the dumped OBB tree *)
 Inductive otree := OLeaf (bx : obox) (tris : list nat) | ONode (bx : obox) (l r : otree).
